@@ -313,6 +313,7 @@ def run(ctx):
     ctx.assumptions += ["the host configuration does not change between the calls one option-parsing run makes",
                         "operating-system call failures (Interfaces, Addrs, RouteList) are oracle flags of the model: "
                         "covered by the theorems, not provoked by the harness"]
+    ctx.gen()      # Gen/SourceShapes.v for the source tie (Properties/C17Source.v); the model itself has no generated part
     model_ok = ctx.coq_model(["Spec/C17.vo"])
     ctx.coq_proofs("Properties/C17.v")
     cfgs, cases = {}, []
